@@ -31,7 +31,7 @@ func genLifecycle(r *rand.Rand, quick bool) *plan.Plan {
 	}
 	k.PQS = &boolF
 	p := &plan.Plan{Knobs: k, Params: map[string]any{}}
-	inc := plan.Incarnation{Boot: "full", SchedSeed: r.Uint64() | 1}
+	inc := plan.Incarnation{Boot: "full", SchedSeed: r.Uint64()>>11 | 1}
 	g := NewEvGen(r, "layout", "Q", 5)
 	for b := 0; b < 2+r.IntN(3); b++ {
 		var evs []json.RawMessage
